@@ -109,6 +109,51 @@ func VerifC15Covers() {
 	}
 }
 
+// c15Greek: lower-case letters that Unicode case folding identifies with one
+// another (sigma / final sigma, micro sign / mu, beta / beta symbol): distinct
+// valid commands that a case-insensitive comparison would confuse.
+var c15Greek = []string{"\u03c3", "\u03c2", "\u00b5", "\u03bc", "\u03b2", "\u03d0"}
+
+func c15Text(tag string, n int) string {
+	s := ""
+	for i := 0; i < n; i++ {
+		k := vChoose(tag+"_ch"+string(rune('0'+i)), 1+len(c15Greek))
+		if k == 0 {
+			b := vString(tag+string(rune('0'+i)), 1)
+			vAssume(b[0] < 0x80)
+			s += b
+		} else {
+			s += c15Greek[k-1]
+		}
+	}
+	return s
+}
+
+// VerifC15CoversUnicode: the segment-prefix relation also holds between valid
+// commands with non-ASCII lower-case letters, in particular letters that only
+// differ by case folding.
+func VerifC15CoversUnicode() {
+	as := "/" + c15Text("a", 1+vChoose("alen", vParam("L")))
+	bs := "/" + c15Text("b", 1+vChoose("blen", vParam("L")))
+	a, errA := Parse(as)
+	b, errB := Parse(bs)
+	if errA != nil || errB != nil {
+		vSkip("not a pair of valid commands")
+	}
+	sa, sb := c15Segs(as), c15Segs(bs)
+	got := a.Covers(b)
+	want := c15Prefix(sa, sb)
+	if got {
+		vReach("covers")
+	} else {
+		vReach("not-covers")
+	}
+	vAssert(got == want, "Covers differs from the segment-prefix relation (non-ASCII letters)")
+	if got && b.Covers(a) {
+		vAssert(vEqStr(as, bs), "Covers is not antisymmetric (non-ASCII letters)")
+	}
+}
+
 // VerifC15Trans: transitivity on triples.
 func VerifC15Trans() {
 	L := vParam("L")
